@@ -323,6 +323,79 @@ func GenSizes(r *hx.Rng, name string) *Package {
 	return p
 }
 
+// GenDynamic draws a package in which dynamic values stand in every place generated code
+// carries them: parameter (alone, between plain parameters), result, signal payload (alone
+// and as one of several), property, field of a struct, member of a tuple, element of a list,
+// value of a map.  The driver repeats each action once per kind of dynamic value (Package.Dyn).
+func GenDynamic(r *hx.Rng, name string) *Package {
+	g := &gen{r: r, maxD: 2}
+	p := &Package{Name: name, Stream: "dynamic", Dyn: true, Steps: 12}
+	any := func() *IType { return Sc("any") }
+	plain := func() *IType { return Sc(ScalarNames[r.Intn(len(ScalarNames)-1)]) }
+	s := &StructDecl{Name: "Tagged", Fields: []Field{{"id", Sc("int32")}, {"payload", any()}, {"label", Sc("str")}}}
+	if r.Bool() {
+		s.Fields = append(s.Fields, Field{"extra", Vec(any())})
+	}
+	p.Structs = append(p.Structs, s)
+	g.structs = []*StructDecl{s}
+	// a type with a dynamic value somewhere below the top
+	inside := func() *IType {
+		switch r.Intn(6) {
+		case 0:
+			return Vec(any())
+		case 1:
+			return MapOf(Sc(keyScalars[r.Intn(len(keyScalars))]), any())
+		case 2:
+			return RefTo(s)
+		case 3:
+			return TupleOf(plain(), any())
+		case 4:
+			return Vec(RefTo(s))
+		default:
+			return MapOf(Sc("str"), Vec(any()))
+		}
+	}
+	either := func() *IType {
+		if r.Chance(0.5) {
+			return any()
+		}
+		return inside()
+	}
+	it := &Iface{Name: pickNames(r, plainIfaceNames, 1)[0]}
+	p.Ifaces = []*Iface{it}
+	names := pickNames(r, plainActionNames, 9)
+	pn := pickNames(r, plainParamNames, 3)
+	ret := inside()
+	for ret.K == TTuple {
+		ret = inside()
+	}
+	sigT, propT := inside(), inside()
+	for sigT.K == TTuple {
+		sigT = inside()
+	}
+	for propT.K == TTuple {
+		propT = inside()
+	}
+	it.Actions = []*Action{
+		{Kind: "fn", Name: names[0], Params: []Param{{pn[0], any()}}, Ret: any()},
+		{Kind: "fn", Name: names[1], Params: []Param{{pn[0], plain()}, {pn[1], either()}, {pn[2], plain()}}, Ret: ret},
+		{Kind: "fn", Name: names[2], Params: []Param{{pn[0], inside()}, {pn[1], any()}}},
+		{Kind: "prop", Name: names[3], Params: []Param{{"a", any()}}},
+		{Kind: "prop", Name: names[4], Params: []Param{{"a", propT}}},
+		{Kind: "sig", Name: names[5], Params: []Param{{"a", any()}}},
+		{Kind: "sig", Name: names[6], Params: []Param{{pn[0], plain()}, {pn[1], any()}}},
+		{Kind: "sig", Name: names[7], Params: []Param{{"a", sigT}}},
+		{Kind: "prop", Name: names[8], Params: []Param{{"a", any()}}},
+	}
+	// declaration order is drawn (ids follow it)
+	for i := len(it.Actions) - 1; i > 0; i-- {
+		j := r.Intn(i + 1)
+		it.Actions[i], it.Actions[j] = it.Actions[j], it.Actions[i]
+	}
+	p.Number()
+	return p
+}
+
 // GenSequence draws a package with one interface that has several properties and signals
 // (and a method or two): what a long sequence on one stub / proxy pair needs.
 func GenSequence(r *hx.Rng, name string) *Package {
